@@ -480,6 +480,19 @@ def rule_8(ctx):
     c11.rule_3(ctx)
 
 
+def rule_9(ctx):
+    """A reference workbook with three sheets (one title a prefix of another, one with an apostrophe), defined names, $-variants,
+    ranges with blanks and cross-sheet chains - loaded through the reader path, compiled and evaluated as written: every formula
+    evaluates to its hand-computed value in both evaluation orders, and a second workbook with names bound elsewhere is not
+    affected by the first."""
+    from . import scenarios as S
+    anchor = ctx.mod('ast_nodes').func('RangeNode.eval')
+    n = S.check_reference_workbook(ctx, anchor, 'reference workbook',
+                                   'A reference means the cell with that sheet, column and row - an unqualified one the sheet of the formula\'s own '
+                                   'cell, however evaluation got there - and a defined name the cell it is bound to in this workbook.')
+    ctx.floor(40, 'reference-workbook cells')
+
+
 RULES = [
     ('C03.1', '$ is stripped before a cell lookup; the remover\'s decision table', rule_1),
     ('C03.2', 'range materialisation is total', rule_2),
@@ -489,4 +502,5 @@ RULES = [
     ('C03.6', 'row-major expansion with inclusive bounds', rule_6),
     ('C03.7', 'sheet names are unquoted by resolve_sheet in both address resolvers', rule_7),
     ('C03.8', 'loaded formulas are bound to the sheet of their own cell (shared with C11.3)', rule_8),
+    ('C03.9', 'reference workbook: sheets, quoted names, defined names, $-variants, cross-sheet chains (end to end)', rule_9),
 ]
